@@ -58,19 +58,24 @@ type Case struct {
 	API    bool           `json:"api,omitempty"`   // go through the HTTP handlers api.Renew / api.Rekey (TLS peer certificate)
 	Rot    bool           `json:"rot,omitempty"`   // renew on an authority whose intermediate was rotated (same root, other key)
 	Again  string         `json:"again,omitempty"` // "" | renew | rekey: a second step on the result of the first
+	BD30   bool           `json:"bd30,omitempty"`  // renew on an authority whose backdate is 30 s (a 30 s certificate then has lifetime 0)
 	Tpl    map[string]any `json:"tpl"`
 }
 
 const provName = "tpl"
 
 type world struct {
-	ca      *fixture.CA // issues, and renews unless the case says "rot"
-	ca2     *fixture.CA // same root, rotated intermediate, own database
-	prov    *provisioner.JWK
-	provKey *jose.JSONWebKey
-	rsaPool []*rsa.PrivateKey
-	n       int
-	skipped int
+	ca       *fixture.CA // issues, and renews unless the case says "rot"
+	ca2      *fixture.CA // same root, rotated intermediate, own database
+	prov     *provisioner.JWK
+	provKey  *jose.JSONWebKey
+	ca3      *fixture.CA // like ca, own database, backdate 30 s instead of the default minute
+	rsaPool  []*rsa.PrivateKey
+	weakRSA  *rsa.PrivateKey // 1024 bits: refused by the sign flow, accepted by rekey (observation O3)
+	n        int
+	skipped  int
+	serials  map[string]bool
+	backdate map[*fixture.CA]int
 }
 
 func newWorld() *world {
@@ -97,6 +102,16 @@ func newWorld() *world {
 	prov2 := &provisioner.JWK{Type: "JWK", Name: provName, Key: &pub, Claims: w.prov.Claims}
 	w.ca2, err = fixture.New(fixture.Opts{From: stub2, Provisioners: provisioner.List{prov2}})
 	if err != nil {
+		panic(err)
+	}
+	prov3 := &provisioner.JWK{Type: "JWK", Name: provName, Key: &pub, Claims: w.prov.Claims}
+	w.ca3, err = fixture.New(fixture.Opts{From: stub1, Provisioners: provisioner.List{prov3}, Backdate: 30 * time.Second})
+	if err != nil {
+		panic(err)
+	}
+	w.serials = map[string]bool{}
+	w.backdate = map[*fixture.CA]int{w.ca: 60, w.ca2: 60, w.ca3: 30}
+	if w.weakRSA, err = rsa.GenerateKey(rand.Reader, 1024); err != nil {
 		panic(err)
 	}
 	for i := 0; i < 2; i++ {
@@ -155,9 +170,44 @@ func (w *world) key(kind string) crypto.Signer {
 	case "ed25519":
 		_, k, _ := ed25519.GenerateKey(rand.Reader)
 		return k
+	case "rsa1024":
+		return w.weakRSA
 	}
 	k, _ := ecdsa.GenerateKey(elliptic.P256(), rand.Reader)
 	return k
+}
+
+// tbs mirrors crypto/x509's unexported tbsCertificate: the harness looks at the DER of the
+// TBSCertificate itself, not only at the parsed x509.Certificate.
+type tbs struct {
+	Raw                asn1.RawContent
+	Version            int `asn1:"optional,explicit,default:0,tag:0"`
+	SerialNumber       *big.Int
+	SignatureAlgorithm asn1.RawValue
+	Issuer             asn1.RawValue
+	Validity           asn1.RawValue
+	Subject            asn1.RawValue
+	PublicKey          asn1.RawValue
+	UniqueID           asn1.BitString `asn1:"optional,tag:1"`
+	SubjectUniqueID    asn1.BitString `asn1:"optional,tag:2"`
+	Extensions         asn1.RawValue  `asn1:"optional,explicit,tag:3"`
+}
+
+func parseTBS(c *x509.Certificate) (*tbs, bool) {
+	var t tbs
+	rest, err := asn1.Unmarshal(c.RawTBSCertificate, &t)
+	return &t, err == nil && len(rest) == 0
+}
+
+// keyAcceptable is the rule of provisioner.defaultPublicKeyValidator (sign flow).
+func keyAcceptable(pub crypto.PublicKey) bool {
+	switch k := pub.(type) {
+	case *rsa.PublicKey:
+		return k.Size() >= 256
+	case *ecdsa.PublicKey, ed25519.PublicKey:
+		return true
+	}
+	return false
 }
 
 // ---- rendering
@@ -254,7 +304,7 @@ func fieldDiff(a, b *x509.Certificate) string {
 // generatedFor returns the extensions Go's CreateCertificate generates from the parsed fields of
 // `old` alone (no ExtraExtensions) for public key `pub` under the CA's intermediate, plus the
 // subject key identifier x509util derives for `pub`.
-func (w *world) generatedFor(ca *fixture.CA, old *x509.Certificate, pub crypto.PublicKey) (string, []byte) {
+func (w *world) generatedFor(ca *fixture.CA, old *x509.Certificate, pub crypto.PublicKey) (string, []byte, []byte) {
 	mk := func(full bool) *x509.Certificate {
 		t := &x509.Certificate{SerialNumber: big.NewInt(1), NotBefore: old.NotBefore, NotAfter: old.NotAfter, RawSubject: old.RawSubject}
 		if full {
@@ -274,10 +324,14 @@ func (w *world) generatedFor(ca *fixture.CA, old *x509.Certificate, pub crypto.P
 	for _, full := range []bool{true, false} {
 		c, err := x509util.CreateCertificate(mk(full), ca.MiniCA.Intermediate, pub, ca.MiniCA.Signer)
 		if err == nil {
-			return extsS(c.Extensions), c.SubjectKeyId
+			var alg []byte
+			if t, ok := parseTBS(c); ok {
+				alg = t.SignatureAlgorithm.FullBytes
+			}
+			return extsS(c.Extensions), c.SubjectKeyId, alg
 		}
 	}
-	return "-", nil
+	return "-", nil, nil
 }
 
 // ---- one case
@@ -335,8 +389,11 @@ func (w *world) run(c Case) (rows []row) {
 	old := chain[0]
 
 	ca := w.ca
-	if c.Rot {
+	switch {
+	case c.Rot:
 		ca = w.ca2
+	case c.BD30:
+		ca = w.ca3
 	}
 	r1, nw := w.step(ca, c.Op, c.NewKey, c.API, old, name, tail)
 	rows = append(rows, r1...)
@@ -369,14 +426,25 @@ func (w *world) step(ca *fixture.CA, op, newKeyKind string, viaAPI bool, old *x5
 		}
 		nkey, target = keyHash(spki), pub
 	}
-	gen, nski := w.generatedFor(ca, old, target)
-	backdate := 60 // fixture default (authority DefaultBackdate = 1m)
+	gen, nski, ealg := w.generatedFor(ca, old, target)
+	ot, otOK := parseTBS(old)
+	if !otOK {
+		return []row{{"unissued why=oldtbs" + tail, "not-issued"}}, nil
+	}
+	backdate := w.backdate[ca]
 	// the two clock comparisons DefaultAuthorizeRenew makes (inputs of the gate part of the model)
 	clock := time.Now().Truncate(time.Second)
 	nyv, exp := clock.Before(old.NotBefore), clock.After(old.NotAfter)
-	line := fmt.Sprintf("%s %s key=%s nkey=%s nb=%d na=%d nyv=%s exp=%s bd=%d exts=%s gen=%s aki=%s nski=%s%s",
-		op, fieldsLine(old), keyHash(old.RawSubjectPublicKeyInfo), nkey, old.NotBefore.Unix(), old.NotAfter.Unix(), common.B(nyv), common.B(exp), backdate,
-		extsS(old.Extensions), gen, common.XB(ca.MiniCA.Intermediate.SubjectKeyId), common.XB(nski), tail)
+	via := "direct"
+	if viaAPI {
+		via = "api" // through the handler only the status class of a refusal is visible
+	}
+	line := fmt.Sprintf("%s via=%s %s key=%s nkey=%s nkok=%s over=%d oalg=%s oiss=%s oski=%s nb=%d na=%d nyv=%s exp=%s bd=%d exts=%s gen=%s aki=%s nski=%s ealg=%s eiss=%s%s",
+		op, via, fieldsLine(old), keyHash(old.RawSubjectPublicKeyInfo), nkey, common.B(keyAcceptable(target)),
+		ot.Version+1, common.XB(ot.SignatureAlgorithm.FullBytes), common.XB(ot.Issuer.FullBytes), common.XB(old.SubjectKeyId),
+		old.NotBefore.Unix(), old.NotAfter.Unix(), common.B(nyv), common.B(exp), backdate,
+		extsS(old.Extensions), gen, common.XB(ca.MiniCA.Intermediate.SubjectKeyId), common.XB(nski),
+		common.XB(ealg), common.XB(ca.MiniCA.Intermediate.RawSubject), tail)
 
 	var nchain []*x509.Certificate
 	t0 := time.Now()
@@ -406,6 +474,8 @@ func (w *world) step(ca *fixture.CA, op, newKeyKind string, viaAPI bool, old *x5
 	switch {
 	case crashed:
 		return []row{{line, "crash"}}, nil
+	case err != nil && viaAPI:
+		return []row{{line, "refuse"}}, nil
 	case err != nil && strings.Contains(err.Error(), "`lifetime` cannot be 0"):
 		return []row{{line, "signerr"}}, nil
 	case err != nil:
@@ -424,8 +494,35 @@ func (w *world) step(ca *fixture.CA, op, newKeyKind string, viaAPI bool, old *x5
 	}
 	nw = nchain[0]
 	serial := "new"
-	if nw.SerialNumber.Cmp(old.SerialNumber) == 0 {
+	switch sn := nw.SerialNumber.String(); {
+	case nw.SerialNumber.Cmp(old.SerialNumber) == 0:
 		serial = "same"
+	case w.serials[sn] || nw.SerialNumber.Sign() <= 0 || nw.SerialNumber.BitLen() > 128:
+		serial = "dup" // seen before in this run (or not a positive 128-bit number)
+	default:
+		w.serials[sn] = true
+	}
+	nt, ntOK := parseTBS(nw)
+	if !ntOK {
+		return []row{{line, "issued-unparsable-tbs"}}, nil
+	}
+	var td []string
+	if nt.Version != ot.Version {
+		td = append(td, "ver")
+	}
+	if !bytes.Equal(nt.SignatureAlgorithm.FullBytes, ot.SignatureAlgorithm.FullBytes) {
+		td = append(td, "alg")
+	}
+	if !bytes.Equal(nt.Issuer.FullBytes, ot.Issuer.FullBytes) {
+		td = append(td, "iss")
+	}
+	// never predicted by the model: unique identifiers, a subject or key in the DER that is not the
+	// parsed one, a serial in the DER that is not the parsed one
+	if nt.UniqueID.BitLength != 0 || nt.SubjectUniqueID.BitLength != 0 {
+		td = append(td, "uid")
+	}
+	if !bytes.Equal(nt.Subject.FullBytes, nw.RawSubject) || !bytes.Equal(nt.PublicKey.FullBytes, nw.RawSubjectPublicKeyInfo) || nt.SerialNumber.Cmp(nw.SerialNumber) != 0 {
+		td = append(td, "der")
 	}
 	sig := "ok"
 	if nw.CheckSignatureFrom(ca.MiniCA.Intermediate) != nil || !reflect.DeepEqual(nw.RawIssuer, ca.MiniCA.Intermediate.RawSubject) {
@@ -453,8 +550,9 @@ func (w *world) step(ca *fixture.CA, op, newKeyKind string, viaAPI bool, old *x5
 	if strip(old.Extensions) != strip(nw.Extensions) {
 		keep = "bad"
 	}
-	impl := fmt.Sprintf("issued key=%s subj=%s dur=%d exts=%s fdiff=%s keep=%s serial=%s sig=%s win=%s",
-		keyHash(nw.RawSubjectPublicKeyInfo), common.XB(nw.RawSubject), int64(nw.NotAfter.Sub(nw.NotBefore)/time.Second),
+	impl := fmt.Sprintf("issued key=%s subj=%s ver=%d alg=%s iss=%s tbs=%s dur=%d exts=%s fdiff=%s keep=%s serial=%s sig=%s win=%s",
+		keyHash(nw.RawSubjectPublicKeyInfo), common.XB(nw.RawSubject), nt.Version+1, common.XB(nt.SignatureAlgorithm.FullBytes),
+		common.XB(nt.Issuer.FullBytes), common.List(td), int64(nw.NotAfter.Sub(nw.NotBefore)/time.Second),
 		extsS(nw.Extensions), fieldDiff(old, nw), keep, serial, sig, win)
 	// the property itself, independent of the model of the code: which parsed field groups may differ
 	hasSKI := false
@@ -796,6 +894,11 @@ func fixedCases() []Case {
 		{Op: "renew", Key: "ec256", Dur: "backdate", Tpl: def},
 		{Op: "rekey", Key: "ec256", NewKey: "ec256", Dur: "backdate", Tpl: def},
 		{Op: "renew", Key: "ec256", Dur: "short", Tpl: def},
+		{Op: "renew", Key: "ec256", Dur: "short", Tpl: def, BD30: true},
+		{Op: "rekey", Key: "ec256", NewKey: "ec256", Dur: "short", Tpl: def, BD30: true, API: true},
+		{Op: "renew", Key: "ec256", Tpl: def, BD30: true, Again: "renew"},
+		{Op: "rekey", Key: "ec256", NewKey: "rsa1024", Tpl: def},
+		{Op: "rekey", Key: "rsa", NewKey: "rsa1024", Tpl: def, API: true},
 		{Op: "renew", Key: "ec256", Dur: "long", Tpl: def},
 		{Op: "renew", Key: "ec256", Tpl: map[string]any{"subject": map[string]any{}, "dnsNames": []string{"only-san.c09.test"}}},
 		{Op: "renew", Key: "ec256", Tpl: map[string]any{"subject": map[string]any{"commonName": "bare"}}},
@@ -811,6 +914,10 @@ func randomCase(r *common.Rng) Case {
 	}
 	c.API = r.Chance(1, 3)
 	c.Rot = r.Chance(1, 5)
+	c.BD30 = !c.Rot && r.Chance(1, 8)
+	if c.Op == "rekey" && r.Chance(1, 12) {
+		c.NewKey = "rsa1024"
+	}
 	switch r.Intn(8) {
 	case 0:
 		c.Again = "renew"
@@ -876,6 +983,7 @@ func main() {
 	w := newWorld()
 	defer w.ca.Close()
 	defer w.ca2.Close()
+	defer w.ca3.Close()
 	unissued := 0
 	for _, c := range cases {
 		for _, rw := range w.run(c) {
